@@ -201,6 +201,11 @@ pub struct CodegenContext {
 
     /// The files that are currently being emitted (the main file and the chain of imports leading to the current file)
     import_stack: Vec<String>,
+
+    /// How deeply are macro invocations currently nested?
+    macro_depth: usize,
+    /// Was the maximum nesting depth exceeded in this pass? Then no further macros are expanded in this pass.
+    macro_depth_exceeded: bool,
 }
 
 #[derive(Debug, PartialEq, Eq, Hash)]
@@ -247,6 +252,8 @@ impl CodegenContext {
             test_elements: vec![],
             source_map: SourceMap::default(),
             import_stack: vec![],
+            macro_depth: 0,
+            macro_depth_exceeded: false,
         }
     }
 
@@ -331,6 +338,7 @@ impl CodegenContext {
     fn next_pass(&mut self) {
         self.pass_idx += 1;
         self.next_macro_scope_id = 0;
+        self.macro_depth_exceeded = false;
 
         log::trace!("\n* NEXT PASS ({}) *", self.pass_idx);
         self.segments.values_mut().for_each(|s| s.reset());
@@ -1027,11 +1035,29 @@ impl CodegenContext {
                         .expect_args(name.span, args.len(), def.args.len())
                         .map_err(|e| self.map_evaluation_error(e))?;
 
+                    // A macro that (indirectly) invokes itself would be expanded forever
+                    const MAX_MACRO_DEPTH: usize = 100;
+                    if self.macro_depth_exceeded {
+                        // Already reported; expanding any further could take exponentially long
+                        return Ok(());
+                    }
+                    if self.macro_depth == MAX_MACRO_DEPTH {
+                        self.macro_depth_exceeded = true;
+                        return Err(Diagnostic::error()
+                            .with_message(format!(
+                                "macro invocations are nested more than {} levels deep",
+                                MAX_MACRO_DEPTH
+                            ))
+                            .with_labels(vec![name.span.to_label()])
+                            .into());
+                    }
+
                     let macro_scope =
                         Identifier::new(format!("$macro_{}", self.next_macro_scope_id));
                     self.next_macro_scope_id += 1;
 
-                    self.with_scope(&macro_scope, None, |s| {
+                    self.macro_depth += 1;
+                    let result = self.with_scope(&macro_scope, None, |s| {
                         for (idx, arg_name) in def.args.iter().enumerate() {
                             let (expr, _) = args.get(idx).unwrap();
 
@@ -1056,7 +1082,9 @@ impl CodegenContext {
                         }
 
                         Ok(())
-                    })?;
+                    });
+                    self.macro_depth -= 1;
+                    result?;
                 } else {
                     self.undefined.insert(UndefinedSymbol {
                         scope_nx: self.current_scope_nx,
